@@ -1,5 +1,5 @@
 (* C18/Witness.v — non-vacuity of the hypotheses used in Properties.v and concrete evaluations. *)
-From Verif Require Import Common.Base Generated.MemLimiter18 C18.Model C18.Proofs C18.ProofsSys.
+From Verif Require Import Common.Base Generated.MemLimiter18 C18.Model C18.Proofs C18.ProofsSys C18.ProofsFine.
 From Coq Require Import String.
 Local Open Scope Z_scope.
 
@@ -161,3 +161,27 @@ Example ex_sys_restart :
          [SStart; SShutdown; SStart; STick (mkTick 1000000000 1000000000 4000000000 4000000000); SQuery]) =
   [SLifeRes false; SLifeRes false; SLifeRes false; STicked true 1; SQueried true].
 Proof. exact sys_restart_checks_l. Qed.
+
+(* a check in flight when the last Shutdown arrives: two users, a check begins with usage above
+   the soft limit, the first user leaves (no wait), the last Shutdown waits and the result
+   (refusing) is stored when it returns; afterwards nothing begins *)
+Definition fine_ops : list fop :=
+  [ FStart; FStart; FBegin (mkTick 1 1 90000000 0); FQuery; FShutdown; FQuery; FShutdown; FQuery;
+    FBegin (mkTick 2 2 0 0); FEnd ].
+
+Example ex_fine :
+  snd (frun lim_fixed (fsys0 0) fine_ops) =
+  [ FLifeRes false None; FLifeRes false None; FBegun; FQueried false; FLifeRes false None; FQueried false;
+    FLifeRes false (Some true); FQueried true; FNotBegun; FNoEnd ].
+Proof. vm_compute. reflexivity. Qed.
+
+Example ex_fine_coarsen :
+  coarsen life0 None fine_ops =
+  [ SStart; SStart; SQuery; SShutdown; SQuery; STick (mkTick 1 1 90000000 0); SShutdown; SQuery ].
+Proof. vm_compute. reflexivity. Qed.
+
+Example ex_fine_hyps :
+  let s := fst (frun lim_fixed (fsys0 0) (firstn 6 fine_ops)) in
+  refcnt (f_life s) = 1 /\ f_fly s = Some (mkTick 1 1 90000000 0) /\
+  refcnt (f_life (fst (frun lim_fixed (fsys0 0) (firstn 8 fine_ops)))) = 0.
+Proof. vm_compute. repeat split; reflexivity. Qed.
